@@ -451,8 +451,10 @@ def rule_definite(ctx, F):
     fn = ctx.need_fn(F, "ts_query_cursor__first_in_progress_capture", "D1")
     if not fn:
         return
+    # the out-parameter that reports definiteness: the function's `bool *` parameter (whatever it is called)
+    out_bool = {p["id"] for p in fn.params if str(p.get("t") or "").replace(" ", "") in ("_Bool*", "bool*")}
     sts = [(pt, n) for pt, e in fn.points() for n in own_walk(e) if n.get("k") == "assign" and n.get("op") == "=" and strip(n["l"]).get("k") == "un" and strip(n["l"]).get("op") == "*"
-           and strip(strip(n["l"])["e"]).get("k") == "ref" and strip(strip(n["l"])["e"]).get("name") == fn.cur("is_definite")]
+           and strip(strip(n["l"])["e"]).get("k") == "ref" and strip(strip(n["l"])["e"]).get("id") in out_bool]
     if not sts:
         ctx.bad("D1", "first_in_progress_capture:is_definite", "ts_query_cursor__first_in_progress_capture no longer stores *is_definite")
         return
